@@ -39,7 +39,7 @@ type tierCfg struct {
 var tiers = map[string]map[string]tierCfg{
 	"C13": {"quick": {200000, 25, 20, 6, 1500}, "thorough": {6000000, 900, 30, 240, 4000}},
 	"C12": {"quick": {150000, 25, 20, 0, 1500}, "thorough": {4000000, 900, 30, 0, 4000}},
-	"C02": {"quick": {6000, 30, 20, 0, 600}, "thorough": {1500000, 1200, 30, 0, 1500}},
+	"C02": {"quick": {60000, 30, 20, 0, 600}, "thorough": {1500000, 1200, 30, 0, 1500}},
 	"C16": {"quick": {3000, 30, 20, 0, 600}, "thorough": {600000, 1200, 30, 0, 1500}},
 	"C14": {"quick": {4000, 25, 20, 6, 600}, "thorough": {800000, 900, 30, 240, 1500}},
 	"C09": {"quick": {12000, 25, 20, 0, 1000}, "thorough": {3000000, 900, 30, 0, 3000}},
@@ -199,6 +199,18 @@ func main() {
 	exit := 0
 	var viols []*violation
 	viols = append(viols, sw.violations...)
+	{
+		byClass := map[string]*violation{}
+		for _, v := range sw.knownCands {
+			if g, ok := byClass[v.res.Violation]; !ok || v.seed < g.seed {
+				byClass[v.res.Violation] = v
+			}
+		}
+		for _, v := range byClass {
+			v.res.Signature = "known-candidate:" + v.res.Violation
+			viols = append(viols, v)
+		}
+	}
 	reported := 0
 	knownPrinted := map[string]bool{}
 	groups := map[string]*violation{}
@@ -338,6 +350,8 @@ type sweepResult struct {
 	trouble    string
 	wall       float64
 	nviolRaw   int64
+	nknownCand int64
+	knownCands []*violation
 }
 
 type proc struct {
@@ -392,6 +406,12 @@ func (p *proc) kill() {
 func (p *proc) wait(hangS int) (hung bool) {
 	for !p.isDone() {
 		time.Sleep(50 * time.Millisecond)
+		if rssMB(p.cmd.Process.Pid) > 6000 {
+			p.lastHB += " memory-exhausted"
+			p.kill()
+			<-p.doneCh
+			return true
+		}
 		b, _ := os.ReadFile(p.hb)
 		if s := string(b); s != p.lastHB {
 			p.lastHB, p.lastChg = s, time.Now()
@@ -402,6 +422,19 @@ func (p *proc) wait(hangS int) (hung bool) {
 		}
 	}
 	return false
+}
+
+func rssMB(pid int) int {
+	b, err := os.ReadFile(fmt.Sprintf("/proc/%d/statm", pid))
+	if err != nil {
+		return 0
+	}
+	f := strings.Fields(string(b))
+	if len(f) < 2 {
+		return 0
+	}
+	n, _ := strconv.Atoi(f[1])
+	return n * 4096 / (1 << 20)
 }
 
 func readLines(path string, fn func(l *line)) {
@@ -461,7 +494,7 @@ func sweep(prop, tier, bin string, base int64, cfg tierCfg, workers int, deadlin
 	for w := range procs {
 		readLines(filepath.Join(scratch, fmt.Sprintf("out.%d.jsonl", w)), func(l *line) {
 			switch l.Kind {
-			case "case", "violation":
+			case "case", "violation", "known-candidate":
 				r := l.Res
 				sr.evals++
 				sr.steps += int64(r.Steps)
@@ -475,6 +508,12 @@ func sweep(prop, tier, bin string, base int64, cfg tierCfg, workers int, deadlin
 				}
 				sr.traces[r.LogHash] = struct{}{}
 				for k, v := range r.Counters {
+					if strings.HasSuffix(k, "_max") {
+						if int64(v) > sr.counters[k] {
+							sr.counters[k] = int64(v)
+						}
+						continue
+					}
 					sr.counters[k] += int64(v)
 				}
 				if r.Inconclusive != "" {
@@ -486,6 +525,12 @@ func sweep(prop, tier, bin string, base int64, cfg tierCfg, workers int, deadlin
 				if l.Kind == "violation" {
 					sr.nviolRaw++
 					sr.violations = append(sr.violations, &violation{seed: l.Seed, c: l.Case, res: r})
+				} else if l.Kind == "known-candidate" {
+					sr.nknownCand++
+					if l.Case != nil {
+						r.Signature = "known-candidate " + r.Signature
+						sr.knownCands = append(sr.knownCands, &violation{seed: l.Seed, c: l.Case, res: r})
+					}
 				} else if l.Case != nil && len(sr.samples) < 3 {
 					sr.samples = append(sr.samples, map[string]any{"case": l.Case, "result": r})
 				}
@@ -731,6 +776,7 @@ func writeEvidence(prop, tier string, seed int64, sr *sweepResult, cfg tierCfg, 
 		"inconclusive_runs":          sr.inconcl,
 		"runs_with_leaked_goroutine": sr.leaked,
 		"violations_before_grouping": sr.nviolRaw,
+		"known_finding_candidates":   sr.nknownCand,
 		"known_findings_matched":     knownN,
 		"workers":                    workers,
 		"sweep_wall_s":               sr.wall,
